@@ -97,8 +97,8 @@ CLAIMS = {
             "and both decimation factors (complete loop-free Kani proof over all i32 inputs with |v| <= 2^20, U19a); contract_graph with the real Network container "
             "operations (get_mut/remove/remap/size/get_nodes/find, get_network_shape): the map never grows, keeps at least four nodes or is left alone, every key equals its node's "
             "coordinate, lookup finds exactly that node, no node is swallowed by the shift, re-training runs with growth off (bounded: rectangular blocks up to 12 nodes, U19b); "
-            "Rosomaxa::update_phase / selection_phase / optimize_network: phases move only forward, the map is created from every collected individual only once enough were "
-            "collected, exploitation selection size stays in [2,4], compaction only for a map above the size to keep (bounded, U19c). Growth/training/weight clauses are not decided.",
+            "Rosomaxa::update_phase / selection_phase / optimize_network: phases move only forward, the map is never created from an empty set, the selection size stays "
+            "positive (bounded, U19c). Growth/training/weight clauses are not decided.",
             "Trusted: Kani/CBMC; array-backed map look-alike; network training (train_on_data, create_network, Network::new, grow_nodes, adjust_weights, distribute_error, mse) is replaced by recorders or not under contract at all: weights/error finiteness and node capacity are NOT decided.",
             TECH_K + " (U19a loop-free, complete; U19b/U19c bounded)", "§3 C19"),
     "C20": ("model_checking",
